@@ -1,29 +1,31 @@
 //@file src/append/rolling_file/mod.rs
-//@harness c06_logwriter_accounting unwind=20 strength=bounded bound="two consecutive writes of <= 8 bytes each into the 1 KiB buffer (no syscall is reached); any starting len <= u64::MAX - 16" timeout=600 replay=no
+//@harness c06_logwriter_accounting unwind=20 strength=bounded bound="two consecutive writes of <= 8 bytes each into the 1 KiB buffer (no syscall is reached); any starting len <= u64::MAX - 16" timeout=600 body=body
 // LogWriter::write: len' = len + n for the n the buffered writer accepted. (Writes >= 1 KiB bypass the buffer and reach
 // write(2), which Kani cannot model: they are outside this bound and reported as unverified.)
-#[cfg(kani)]
+#[cfg(any(kani, verif_replay))]
 #[allow(dead_code, unused)]
 mod __verif_c06_lw {
     use super::*;
+    use crate::__verif_rt::*;
+    use crate::{__verif_ob, __verif_cover};
     use std::os::fd::FromRawFd;
-    #[kani::proof]
-    #[kani::unwind(20)]
-    fn c06_logwriter_accounting() {
+    pub(crate) fn body(src: &mut Src) {
+        // the descriptor is never written to: both writes stay in the 1 KiB buffer and the writer is forgotten, not dropped
         let file = unsafe { File::from_raw_fd(7) };
-        let len0: u64 = kani::any(); kani::assume(len0 <= u64::MAX - 16);
+        let len0 = src.u64(); assume(len0 <= u64::MAX - 16);
         let mut w = LogWriter { file: BufWriter::with_capacity(1024, file), len: len0 };
-        let buf: [u8; 8] = kani::any();
-        let n1: usize = kani::any(); kani::assume(n1 <= 8);
-        let n2: usize = kani::any(); kani::assume(n2 <= 8);
+        let buf = [src.u8(), src.u8(), src.u8(), src.u8(), src.u8(), src.u8(), src.u8(), src.u8()];
+        let n1 = src.u8() as usize; assume(n1 <= 8);
+        let n2 = src.u8() as usize; assume(n2 <= 8);
         let r1 = io::Write::write(&mut w, &buf[..n1]);
         let k1 = match r1 { Ok(k) => k, Err(_) => 0 };
-        assert!(k1 == n1, "write#post a write that fits the buffer is accepted whole");
-        assert!(w.len == len0 + k1 as u64, "write#post len grows by exactly the accepted bytes (first write)");
+        __verif_ob!("write#post a write that fits the buffer is accepted whole", k1 == n1);
+        __verif_ob!("write#post len grows by exactly the accepted bytes (first write)", w.len == len0 + k1 as u64);
         let r2 = io::Write::write(&mut w, &buf[..n2]);
         let k2 = match r2 { Ok(k) => k, Err(_) => 0 };
-        kani::cover!(n1 > 0 && n2 > 0, "two non-empty writes");
-        assert!(w.len == len0 + k1 as u64 + k2 as u64, "write#post len grows by exactly the accepted bytes (second write)");
+        __verif_cover!("two non-empty writes", n1 > 0 && n2 > 0);
+        __verif_ob!("write#post len grows by exactly the accepted bytes (second write)", w.len == len0 + k1 as u64 + k2 as u64);
         std::mem::forget(w);
     }
+    #[cfg(kani)] #[kani::proof] #[kani::unwind(20)] fn c06_logwriter_accounting() { let mut s = Src::new(); body(&mut s); }
 }
